@@ -1,22 +1,29 @@
 /-
 C11, allocation drivers: the places of cty/function/stdlib where a number the CALLER controls
 becomes the size of an allocation, modelled with Go's `int` arithmetic (64-bit, wrapping) and the
-Go runtime's refusal of requests beyond the address space, following the Go control flow:
+Go runtime's refusal of requests beyond the address space, following the Go control flow
+(as of /repo 490ecb9, d4d90b0, 84cbc5e, which repaired the three defects this file first exhibited):
 
 * `indent`      string.go:   `gocty.FromCtyValue(args[0], &spaces)`; `spaces < 0` → error;
-                             `strings.Repeat(" ", spaces)` — before the string is looked at;
-* `format`      format_fsm.rl: `verb.Width = (10 * verb.Width) + digit` (likewise `Prec`), no
-                             overflow check; format.go `formatPadWidth`: `Width < 0` → no padding;
-                             `givenLen >= wantLen` → no padding; `strings.Repeat(pad, wantLen-givenLen)`;
-* `setproduct`  collection.go: `total *= arg.LengthInt()`, no overflow check; `total == 0` →
-                             empty result; `make([][]cty.Value, total)`; `make([]cty.Value, total*len(args))`.
+                             `lines := strings.Count(data, "\n")`; `lines == 0` → the string as it is;
+                             `spaces > (math.MaxInt32-len(data))/lines` → error;
+                             `strings.Repeat(" ", spaces)`;
+* `format`      format_fsm.rl: `verb.Width = formatArgNumAppendDigit(verb.Width, digit)` (likewise
+                             `Prec`): saturates at the largest `int`; format.go `formatAppend`:
+                             `HasWidth && Width > formatMaxWidthPrec` → error (likewise `Prec`);
+                             `formatPadWidth`: `Width < 0` → no padding; `givenLen >= wantLen` → no
+                             padding; `strings.Repeat(pad, wantLen-givenLen)`;
+* `setproduct`  collection.go: `maxTotal := math.MaxInt32`, divided by `len(args)` when that is > 1;
+                             per argument `l == 0` → `total = 0`; `total != 0 && total > maxTotal/l`
+                             → `tooMany = true`; else `total *= l`; `total != 0 && tooMany` → error;
+                             `total == 0` → empty result; `make([][]cty.Value, total)`;
+                             `make([]cty.Value, total*len(args))`.
 
 `strings.Repeat` (Go 1.23): negative count panics; `len(s)*count` overflowing `int` panics;
 `Builder.Grow(n)` → `bytealg.MakeNoZero(n)` panics with "makeslice: len out of range" when
 `n > maxAlloc`.  `runtime.makeslice` panics when `len < 0` or `len*elemsize > maxAlloc`.
 `maxAlloc` is 2^48 on linux/amd64 (the platform the harness runs on): a parameter of the
-definitions below.  Between what the machine has and `maxAlloc` the request is a real allocation
-(the model answers `.ok`; the harness never runs it: generated sizes are capped at 10^6).
+definitions below.  Go's `/` on `int` truncates toward zero: `Int.tdiv`.
 
 Core Lean only: the driver links this file (op `c11.alloc`, Driver/HD11.lean).
 -/
@@ -25,8 +32,16 @@ namespace CtyModel
 namespace D11
 open Stdlib
 
+/-- an ordinary error (not a panic) -/
+def isErr {α} : Res α → Bool
+  | .err _ => true
+  | _ => false
+
 /-- largest Go `int` -/
 def maxInt64 : Int := 9223372036854775807
+
+/-- `math.MaxInt32` -/
+def maxInt32 : Int := 2147483647
 
 /-- Go `int` arithmetic wraps around modulo 2^64 into [-2^63, 2^63) -/
 def wrap64 (x : Int) : Int := (x + 9223372036854775808) % 18446744073709551616 - 9223372036854775808
@@ -47,19 +62,32 @@ def goRepeat (slen count : Int) : Res Int :=
 
 /-! ### indent -/
 
-/-- `IndentFunc`'s Impl up to and including `pad := strings.Repeat(" ", spaces)`: the length of
-the padding -/
-def indentPad (spaces : Value) : Res Int :=
+/-- `IndentFunc`'s Impl up to and including `pad := strings.Repeat(" ", spaces)`, for a string of
+`dataLen` bytes holding `lines` line breaks: the length of the padding (0 when none is built) -/
+def indentPad (spaces : Value) (dataLen lines : Int) : Res Int :=
   match fromCtyInt spaces with
-  | .ok k => if k < 0 then .err "the number of spaces must not be negative" else goRepeat 1 k
+  | .ok k =>
+    if k < 0 then .err "the number of spaces must not be negative"
+    else if lines == 0 then .ok 0
+    else if k > Int.tdiv (maxInt32 - dataLen) lines then .err "the number of spaces is too large"
+    else goRepeat 1 k
   | .err c => .err c
   | .panic w => .panic w
   | .unmodelled => .unmodelled
 
 /-! ### format: width / precision digits and `formatPadWidth` -/
 
-/-- the scanner's actions 13/14 (16/17): `Width = 0`, then `Width = (10 * Width) + digit` per digit -/
-def accDigits (ds : List Nat) : Int := ds.foldl (fun (n : Int) (d : Nat) => wrap64 (10 * n + (d : Int))) 0
+/-- `formatMaxWidthPrec` -/
+def formatMaxWidthPrec : Int := 1000000
+
+/-- `(maxInt-9)/10` -/
+def satThreshold : Int := 922337203685477579
+
+/-- `formatArgNumAppendDigit(n, digit)` -/
+def appendDigit (n : Int) (d : Nat) : Int := if n > satThreshold then maxInt64 else 10 * n + (d : Int)
+
+/-- the scanner's actions 13/14 (16/17): `Width = 0`, then `Width = formatArgNumAppendDigit(Width, digit)` per digit -/
+def accDigits (ds : List Nat) : Int := ds.foldl appendDigit 0
 
 /-- the number the digits spell -/
 def litValue (ds : List Nat) : Int := ds.foldl (fun (n : Int) (d : Nat) => 10 * n + (d : Int)) 0
@@ -71,13 +99,24 @@ def formatPad (width givenLen : Int) : Res Int :=
   else if givenLen ≥ width then .ok 0
   else goRepeat 1 (width - givenLen)
 
-/-- a `%<digits>s`-style verb applied to a text of `givenLen` clusters -/
-def formatPadOfDigits (ds : List Nat) (givenLen : Int) : Res Int := formatPad (accDigits ds) givenLen
+/-- a `%<digits>s`-style verb applied to a text of `givenLen` clusters: `formatAppend`'s width
+guard, then `formatPadWidth` -/
+def formatPadOfDigits (ds : List Nat) (givenLen : Int) : Res Int :=
+  if accDigits ds > formatMaxWidthPrec then .err "unsupported width" else formatPad (accDigits ds) givenLen
 
 /-! ### setproduct -/
 
-/-- `total := 1; for … { total *= arg.LengthInt() }` -/
-def totalLen (ls : List Int) : Int := ls.foldl (fun t l => wrap64 (t * l)) 1
+/-- `maxTotal := math.MaxInt32; if len(args) > 1 { maxTotal /= len(args) }` -/
+def spMaxTotal (n : Nat) : Int := if n > 1 then Int.tdiv maxInt32 (n : Int) else maxInt32
+
+/-- one round of the loop over the arguments (all of known length): `(total, tooMany)` -/
+def spStep (maxTotal : Int) (st : Int × Bool) (l : Int) : Int × Bool :=
+  if l == 0 then (0, st.2)
+  else if st.1 != 0 && st.1 > Int.tdiv maxTotal l then (st.1, true)
+  else (wrap64 (st.1 * l), st.2)
+
+/-- `total`, `tooMany` after the loop -/
+def spLoop (ls : List Int) : Int × Bool := ls.foldl (spStep (spMaxTotal ls.length)) (1, false)
 
 /-- the mathematical product -/
 def prodLen (ls : List Int) : Int := ls.foldl (fun t l => t * l) 1
@@ -85,12 +124,13 @@ def prodLen (ls : List Int) : Int := ls.foldl (fun t l => t * l) 1
 /-- `SetProductFunc`'s Impl from `total` to the two `make` calls (all arguments of known length):
 the number of tuples; 24 = size of a slice header, 32 = size of a `cty.Value` -/
 def setProductAlloc (ls : List Int) : Res Int :=
-  let total := totalLen ls
-  if total == 0 then .ok 0
-  else match makeslice total 24 with
+  let st := spLoop ls
+  if st.1 != 0 && st.2 then .err "too many combinations"
+  else if st.1 == 0 then .ok 0
+  else match makeslice st.1 24 with
     | .ok _ =>
-      (match makeslice (wrap64 (total * ls.length)) 32 with
-       | .ok _ => .ok total
+      (match makeslice (wrap64 (st.1 * ls.length)) 32 with
+       | .ok _ => .ok st.1
        | .err c => .err c
        | .panic w => .panic w
        | .unmodelled => .unmodelled)
